@@ -457,7 +457,12 @@ class Ctx:
 
                 # generous budget: this runs only after z3 gave up, and a loaded machine must not turn a
                 # 2-second cvc5 proof into `undecided`
-                r2, secs2 = cvc5_check(ob.smt2, timeout_s=max(40, 4 * self.ex.oblig_timeout_ms // 1000))
+                # (only for the first few hard obligations of a target: on code where many obligations are
+                # hard the short budget keeps the exploration moving towards the ones that can be refuted)
+                left = getattr(self.ex, "generous_left", 4)
+                generous = left > 0
+                self.ex.generous_left = left - 1
+                r2, secs2 = cvc5_check(ob.smt2, timeout_s=max(40, 4 * self.ex.oblig_timeout_ms // 1000) if generous else max(10, self.ex.oblig_timeout_ms // 1000))
                 if r2 == "unsat":
                     ob.status, ob.solver = "discharged", "cvc5"
                 elif r2 == "sat":
@@ -489,7 +494,7 @@ class Ctx:
                     ob.model = m[1]
                     ob.z3model = m[2]
             s.set("timeout", self.ex.feas_timeout_ms)
-            if ob.status == "unknown" and not ob.solver.startswith("z3-unsat-unconfirmed"):
+            if ob.status == "unknown" and not ob.solver.startswith("z3-unsat-unconfirmed") and getattr(self.ex, "generous_left", 4) >= 0:
                 # last resort before `undecided`: one retry on the cone of influence with a budget four
                 # times as large (a loaded machine must not turn a 4-second proof into `unknown`)
                 s4 = z3.Solver()
